@@ -35,6 +35,7 @@ def strategy(tier):
         st.tuples(st.just('create'), name),
         st.tuples(st.just('remove'), name),
         st.tuples(st.just('undo'), st.integers(0, 3)),
+        st.tuples(st.just('setx'), st.integers(1, 9)),
     ).map(list)
     return st.fixed_dictionaries({
         'kind': st.sampled_from(['fs', 'fs', 'mapping']),
@@ -42,24 +43,66 @@ def strategy(tier):
         'later': st.lists(op, min_size=1, max_size=3),
         'pack_at': st.integers(0, 3),
         'do_pack': st.booleans(),
+        # the object 'x' lives in a second database of a multi-database and is referenced from the root
+        'multi': st.sampled_from([None, None, 'mapping', 'fs']),
+        # UTC offset (minutes) of the timezone-aware datetime bounds
+        # does a transaction writing both databases precede the bounds (both have the same newest tid)?
+        'sync': st.booleans(),
+        'tz': st.sampled_from([-720, -300, -1, 0, 1, 60, 330, 840]),
     })
 
 
 class Hist:
-    def __init__(self, kind, d):
+    def __init__(self, kind, d, multi=None):
         import transaction
         import ZODB
         from ZODB.FileStorage import FileStorage
         from ZODB.MappingStorage import MappingStorage
         self.kind = kind
+        self.multi = multi
+        kw = {}
+        if multi:
+            self.databases = {}
+            kw = {'databases': self.databases, 'database_name': 'main'}
         self.db = ZODB.DB(FileStorage(os.path.join(d, 'Data.fs')) if kind == 'fs' else MappingStorage(),
-                          historical_pool_size=2)
+                          historical_pool_size=2, **kw)
+        self.db2 = None
         self.tm = transaction.TransactionManager()
         self.conn = self.db.open(self.tm)
         self.txns = []      # (tid, {name: state|ABSENT}) ; state = {'v':..}; key 'root' = tuple of names
         self.oids = {}
         self.txns.append((self.db.storage.lastTransaction(), {'root': ()}))
         clock.CLOCK.advance(1.0)
+        if multi:
+            from vlib.vclasses import Node
+            self.db2 = ZODB.DB(FileStorage(os.path.join(d, 'Other.fs')) if multi == 'fs' else MappingStorage(),
+                               historical_pool_size=2, databases=self.databases, database_name='other')
+            clock.CLOCK.advance(1.0)
+            self.conn2 = self.conn.get_connection('other')
+            x = Node()
+            x.v = 1
+            self.conn2.root()['x'] = x
+            self.tm.commit()
+            self.record({'x': {'v': 1}})
+            self.conn.root()['x'] = x          # cross-database reference
+            self.tm.commit()
+            self.record({'root': ('x',)})
+
+    def last_tid(self):
+        t = self.db.storage.lastTransaction()
+        if self.db2 is not None:
+            t = max(t, self.db2.storage.lastTransaction())
+        return t
+
+    def sync(self):
+        """one transaction that writes both databases: both have the same newest transaction"""
+        if not self.multi:
+            return
+        n = len(self.txns)
+        self.conn.root()['_sync'] = n
+        self.conn2.root()['x'].v = 5000 + n
+        self.tm.commit()
+        self.record({'x': {'v': 5000 + n}})
 
     def state(self, before=None):
         s = {}
@@ -70,7 +113,8 @@ class Hist:
         return s
 
     def record(self, writes):
-        self.txns.append((self.db.storage.lastTransaction(), writes))
+        assert self.last_tid() > self.txns[-1][0]
+        self.txns.append((self.last_tid(), writes))
         clock.CLOCK.advance(1.0)
 
     def apply(self, op):
@@ -89,6 +133,14 @@ class Hist:
                 return False
             self.tm.commit()
             self.record(w)
+            return True
+        if k == 'setx':
+            if not self.multi:
+                return False
+            v = op[1] * 1000 + len(self.txns)
+            self.conn2.root()['x'].v = v
+            self.tm.commit()
+            self.record({'x': {'v': v}})
             return True
         if k == 'create':
             name = op[1]
@@ -110,7 +162,7 @@ class Hist:
             # the object itself is not written: it stays in the storage, unreachable
             self.record({'root': tuple(sorted(set(cur['root']) - {name}))})
             return True
-        if k == 'undo' and self.kind == 'fs':
+        if k == 'undo' and self.kind == 'fs' and not self.multi:
             from ZODB.POSException import UndoError
             import base64
             log = self.db.undoLog(0, 10)
@@ -152,6 +204,8 @@ def read_hist(conn):
         return 'no-root'        # a bound before the database was created
     out = {}
     for n in sorted(root.keys()):
+        if n.startswith('_'):
+            continue
         o = root[n]
         o._p_activate()
         out[n] = {'v': o.v}
@@ -168,11 +222,14 @@ def execute(case):
     locks.install()
     clock.reset()
     d = newdir()
-    h = Hist(case['kind'], d)
+    h = Hist(case['kind'], d, case.get('multi'))
     nt = []
+    tz = datetime.timezone(datetime.timedelta(minutes=case.get('tz', 0)))
     try:
         for op in [['create', 'a'], ['create', 'b']] + list(case['history']):
             h.apply(op)
+        if case.get('sync'):
+            h.sync()
         tids = [t[0] for t in h.txns]
         # ---- bounds
         bounds = []
@@ -188,6 +245,9 @@ def execute(case):
             eff = h.db.__class__ and None
             bounds.append(('at-datetime', dt, None))
             bounds.append(('before-datetime', dt, None))
+            # the same instant as a timezone-aware datetime
+            aware = datetime.datetime.fromtimestamp(tt, tz)
+            bounds.append(('at-datetime', aware, None) if u64(t) % 2 else ('before-datetime', aware, None))
         opened = []
         for kind, arg, before in bounds:
             tm_h = transaction.TransactionManager()
@@ -198,8 +258,7 @@ def execute(case):
                     hc = h.db.open(tm_h, before=arg)
             except ValueError as e:
                 # only bounds beyond the newest transaction may be refused
-                if kind in ('at-datetime', 'before-datetime') and TimeStamp(tids[-1]).timeTime() < (
-                        arg - datetime.datetime(1970, 1, 1)).total_seconds():
+                if kind in ('at-datetime', 'before-datetime') and TimeStamp(tids[-1]).timeTime() < epoch_secs(arg):
                     out.label('future-datetime-refused')
                     continue
                 if before is not None and before > p64(u64(tids[-1]) + 1):
@@ -208,7 +267,9 @@ def execute(case):
                 return done(out, nt)
             if before is None:
                 # datetime: the state as of the transactions committed up to that time
-                secs = (arg - datetime.datetime(1970, 1, 1)).total_seconds()
+                secs = epoch_secs(arg)
+                if arg.tzinfo is not None:
+                    out.label('aware-datetime-bound' if arg.utcoffset() else 'aware-utc-datetime-bound')
                 before = p64(u64(max(t for t in tids if TimeStamp(t).timeTime() <= secs)) + 1)
             exp = view(h.state(before))
             out.evals += 1
@@ -232,7 +293,7 @@ def execute(case):
         # ---- the world moves on while the historical connections are open
         cur_before = view(h.state())
         committed_later = False
-        for op in case['later']:
+        for op in list(case['later']) + ([['setx', 3]] if h.multi else []):
             committed_later = h.apply(op) or committed_later
         if case['do_pack'] and len(tids) > 1:
             # pack to a time not later than the oldest bound still in use is outside the statement;
@@ -274,6 +335,22 @@ def execute(case):
                 if h.db.storage.lastTransaction() != last:
                     out.fail((PROPERTY, 'historical-write', 'stored'), 'a refused historical commit stored a transaction')
                     return done(out, nt)
+                if h.multi and 'x' in exp:
+                    # a write to the object of the other database reached through the historical connection
+                    last = h.last_tid()
+                    hc.root()['x'].v = -6
+                    try:
+                        tm_h.commit()
+                    except (ReadOnlyHistoryError, ReadOnlyError):
+                        tm_h.abort()
+                        out.label('cross-db-write-refused')
+                    else:
+                        out.fail((PROPERTY, 'historical-write', 'cross-database-accepted'),
+                                 'commit of a change to an object of the second database through open(%s=%r) succeeded' % (kind, arg))
+                        return done(out, nt)
+                    if h.last_tid() != last:
+                        out.fail((PROPERTY, 'historical-write', 'stored'), 'a refused historical commit stored a transaction')
+                        return done(out, nt)
                 got = read_hist(hc)
                 if got != exp:
                     out.fail((PROPERTY, 'historical-read', 'changed-after-refused-write'),
@@ -308,10 +385,18 @@ def execute(case):
         try:
             h.tm.abort()
             h.db.close()
+            if h.db2 is not None:
+                h.db2.close()
         except Exception:
             pass
-    out.label(case['kind'])
+    out.label(case['kind'], *(['multi-database', 'other-' + case['multi']] if case.get('multi') else []))
     return done(out, nt)
+
+
+def epoch_secs(dt):
+    if dt.tzinfo is None:
+        return (dt - datetime.datetime(1970, 1, 1)).total_seconds()
+    return (dt - datetime.datetime(1970, 1, 1, tzinfo=datetime.timezone.utc)).total_seconds()
 
 
 def done(out, nt):
